@@ -1,3 +1,6 @@
 import Conc.Basic
 import Conc.Handlers
 import Conc.UpdInst
+import Conc.Lines
+import Conc.Toy
+import Conc.Alone
